@@ -218,3 +218,18 @@ also("C14", "(R-SUCCESS-AT-EOF) a multi-patch reader reports success only behind
 also("C18", "(R-ARG-FLOW) AddAll's nil-receiver branch clones its argument; every result of Append is built on the slice it was given.")
 also("C19", "(R-PASS-UNIFORM) in the removal pass the decision to remove depends on random bits only; (R-REFILL-COUNTER) the refill is triggered by the countdown of unused bits; (R-RECV-POINTER) methods assigning receiver fields have pointer receivers.")
 also("C20", "(R-TOKEN-OK) the numeric parser's ok flag tests the cut position; digits are folded in with a radix.")
+
+# ---- rules added or generalised in the seventh round (refactorings with one slip) and the pairs experiment
+also("C01", "A child link copied into another link is not read after it was cleared (R-LINK-STALE).")
+also("C02", "(R-LIMIT-KEPT) no Tree method resets the fields the depth limit is computed from (a whole-value overwrite of the receiver copies them); a rebuild that counts the subtree itself counts it before anything else touches it.")
+also("C03", "(R-SIBLING-AGREE) for every answer findNext/findPrev can give (node nil or not, offset on which side of zero) HasNext/HasPrev says true exactly when Next/Prev leaves a non-empty path.")
+also("C04", "(R-OK-FORWARD) a (value, ok) accessor never answers a constant ok that contradicts the ok of the lookup known on that path; (R-ITER-SIBLING) omap's First and Last initialise the same fields of the iterator they return.")
+also("C07", "Index helper methods (wrap, prev, tail) are analysed at their call sites; a value found equal to a constant yields a congruence the slot rules use.")
+also("C08", "A helper that does the accounting of a departure (one callback, one size subtraction, one count decrement on its parameters) is summarised and held to the departing pair at every call site; the size stored with an arrival is bounded by limit by linear facts over size and limit (loop exits, helper postconditions) with no write of size in between.")
+also("C09", "A call made before the critical section is tolerated only when its callee writes nothing and its result is used for nothing but the capacity of a fresh slice.")
+also("C11", "Spans are followed through windows that the builder advances by re-slicing (lhs = lhs[n:]); every slice expression on the way to the parameter is held to R-EDIT-SPAN.")
+also("C15", "The library's whole-string tests on the input (strings.ContainsAny(s, const), IndexByte(s, c) >= 0, …) are summarised as 'some byte lies in a fixed set' and take part in R-QUOTABLE-BITS and R-QUOTE-SET; range loops over []byte(s), strings.ReplaceAll of one byte, and an input byte written as part of constant text are followed.")
+also("C17", "(R-ALLOC-BOUNDED) also for sizes computed as len(input) + count.")
+also("C18", "(R-NIL-LAZY) a map made for a nil receiver is stored back through the receiver.")
+also("C19", "R-BUF-BOUND keeps one interval per state of knowledge about the argument's membership (unknown, present, absent), reads Len ± k guards, and R-EXACT-REGIME accepts Len >= cap as established by the interval analysis on every way to a removal.")
+also("C20", "(R-TRUNC-PREFIX) Trunc backs up only when it cuts; (R-CMP-RANGE) comparison helpers chosen among named functions are followed.")
